@@ -5,6 +5,8 @@ READ from environment.py (Python ast, no regex).
   * whether an `await` stands between the assignment of `self._module` and `return self._module`
   * attributes of `self` assigned in methods of Template (Template objects are shared by concurrent renders)
   * attributes of `self` assigned (or subscript-assigned) in the Environment methods a render can reach
+  * for Macro, Context, TemplateModule, TemplateExpression (objects reachable from a cached module, shared by all renders):
+    every assignment to / in-place mutation of an attribute of self outside __init__
   * render_async / generate_async create their Context from the call's arguments (`self.new_context(dict(*args, **kwargs))`)
 """
 from __future__ import annotations
@@ -62,6 +64,41 @@ def self_writes(fn):
     return sorted(set(out))
 
 
+MUTATORS = {"append", "extend", "pop", "update", "setdefault", "add", "discard", "remove", "clear", "insert", "popitem",
+            "difference_update", "appendleft", "sort", "reverse"}
+
+# classes whose instances are reachable from a cached default module (Template._module) and therefore shared by every
+# render on the environment: the module object, its macros, the context the module body was rendered in
+SHARED_CLASSES = [("runtime", "Macro"), ("runtime", "Context"), ("environment", "TemplateModule"),
+                  ("environment", "TemplateExpression")]
+
+
+def self_mutations(fn):
+    """`self.X.<mutator>(…)` calls: in-place changes of a container held by self"""
+    out = []
+    for n in ast.walk(fn):
+        if isinstance(n, ast.Call) and isinstance(n.func, ast.Attribute) and n.func.attr in MUTATORS:
+            v = n.func.value
+            if isinstance(v, ast.Attribute) and isinstance(v.value, ast.Name) and v.value.id == "self":
+                out.append(f"{v.attr}.{n.func.attr}()")
+    return sorted(set(out))
+
+
+def shared_class_writes():
+    """[(class, ["method:attribute", …])] — every assignment to / in-place mutation of an attribute of self in a method
+    other than __init__ / __new__"""
+    out = []
+    for mod, cname in SHARED_CLASSES:
+        cls = find_class(parse(mod), cname)
+        ws = []
+        for m in cls.body:
+            if isinstance(m, (ast.FunctionDef, ast.AsyncFunctionDef)) and m.name not in ("__init__", "__new__"):
+                for a in self_writes(m) + self_mutations(m):
+                    ws.append(f"{m.name}:{a}")
+        out.append((cname, ws))
+    return out
+
+
 def gen():
     tree = parse("environment")
     tcls = find_class(tree, "Template")
@@ -116,6 +153,10 @@ def gen():
          f"def templateSelfWrites : List String := {llist(map(lstr, twrites))}\n",
          "-- READ: `method:attribute` for every assignment to an attribute of self in the Environment methods a render can reach",
          f"def environmentRenderPathSelfWrites : List String := {llist(map(lstr, ewrites))}\n",
+         "-- READ: `method:attribute` for every assignment to / in-place mutation of an attribute of self outside __init__ in the",
+         "-- classes whose instances hang off a cached default module and are therefore shared by all renders on the environment",
+         "def sharedObjectSelfWrites : List (String × List String) := " + llist(
+             f"\n  ({lstr(c)}, {llist(map(lstr, ws))})" for c, ws in shared_class_writes()) + "\n",
          "-- READ: render_async and generate_async build their Context from the call's own arguments",
          f"def rendersCreateFreshContext : Bool := {'true' if all(fresh_ctx) else 'false'}\n",
          "end JinjaV.Gen.ModuleProtocol\n"]
